@@ -23,6 +23,7 @@ RULE = ('a case = a generated host program (1-3 modules + optionally a second di
         'lines, another file, unmatchable ones (method tracepoint without method_name on a module compiled from a '
         'string: source not available, a fifth of the programs) next to ordinary ones, method tracepoints (method_name) on functions that exist in several files, on the '
         'generator and on the method; kinds snapshot / snapshot+log / log / metric / span line / span method; '
+        'a third carry an explicit stage of their family (method_start / method_end, line_start / line_end); '
         'fire_count=-1 fire_period=0; a quarter of the single-effect tracepoints have a scripted condition '
         '(arbitrary allow/deny per hit); every 8th case is a lifecycle case: real TriggerHandler.start() / new_config / '
         'shutdown(), threads started while the installed list is empty and run after tracepoints are configured; '
@@ -71,6 +72,13 @@ def mk_tp(rng, n, path, line, kind, via, method=None, scripted=False):
         args.update(snapshot='no_collect', span='method' if method else 'line')
     if method:
         args['method_name'] = method
+    # an explicit stage of the same family (the START / END position of a location is not part of where it is: a method
+    # tracepoint acts when the function is entered, a line tracepoint when the line is reached)
+    r = rng.random()
+    if method and r < 0.45:
+        args['stage'] = 'method_end' if r < 0.3 else 'method_start'
+    elif not method and r < 0.3:
+        args['stage'] = 'line_end' if r < 0.2 else 'line_start'
     tp = {'id': 'tp%d' % n, 'path': path, 'line': line, 'args': args, 'metrics': metrics, 'via': via}
     if scripted and kind in ('snapshot', 'log', 'span'):
         tp['scripted'] = True
